@@ -242,14 +242,14 @@ def cexn(name):
 
 
 # ------------------------------------------------------------ kernels regenerated from the source (tools/py2v.py)
-def kernel_obligations(work, pid, source, names):
+def kernel_obligations(work, pid, source, names, mode="q"):
     """Translate the named loop-free functions of /repo's current `source` to Gallina and compile them together with the committed
     equivalence lemmas tools/py2v_eq/<pid>.v (which tie them to the hand-written model).  Returns [(name, good, detail)]."""
     sys.path.insert(0, os.path.join(VERIF, "tools"))
     import py2v
     label = "py2v: %s of %s translated from the current source" % (", ".join(names), source)
     try:
-        text = py2v.translate(os.path.join(REPO, source), names)
+        text = py2v.translate(os.path.join(REPO, source), names, mode)
     except py2v.Unsupported as e:
         return [(label, False, "outside the translated subset: %s" % e)]
     except SyntaxError as e:
@@ -257,7 +257,7 @@ def kernel_obligations(work, pid, source, names):
     eqdir = os.path.join(VERIF, "tools", "py2v_eq")
     path = os.path.join(work, "Kernels_%s.v" % pid)
     with open(path, "w") as f:
-        f.write(open(os.path.join(eqdir, "header.v")).read() + text + open(os.path.join(eqdir, pid + ".v")).read())
+        f.write(open(os.path.join(eqdir, "header.v" if mode == "q" else "header_zq.v")).read() + text + open(os.path.join(eqdir, pid + ".v")).read())
     rc, out = sh(["timeout", "300", "coqc", "-Q", COQ, "Plotink", path], 320)
     lemmas = re.findall(r"^Lemma\s+(\w+)", open(os.path.join(eqdir, pid + ".v")).read(), re.M)
     return [(label, True, ""),
